@@ -300,3 +300,101 @@ Proof.
   - cbn. lia.
   - cbn. lia.
 Qed.
+
+(* ---------------------------------------------------------------- every step is a good transition *)
+Lemma GT_then a b c : CellInv a -> GT a b -> (CellInv b -> GT b c) -> GT a c.
+Proof. intros Ha Hab Hbc. eapply GT_trans; eauto. apply Hbc. apply (gt_inv _ _ Hab). Qed.
+
+Lemma c_evict_GT fx space : forall q kc size, CellInv kc -> GT kc (fst (fst (fst (c_evict fx q kc size space)))).
+Proof.
+  induction q as [|k t IH]; intros kc size HI; cbn [c_evict].
+  - destruct (c_fits fx (k_cap kc) size space); now apply GT_refl.
+  - destruct (c_fits fx (k_cap kc) size space); [now apply GT_refl|].
+    eapply GT_then; [exact HI|now apply GT_drop|]. intros HI'. now apply IH.
+Qed.
+
+Lemma c_clean_loop_GT target : forall keys c, CellInv (c_core c) -> GT (c_core c) (c_core (c_clean_loop c target keys)).
+Proof.
+  induction keys as [|k t IH]; intros c HI; cbn [c_clean_loop]; [now apply GT_refl|].
+  destruct (c_size c <=? target); [now apply GT_refl|].
+  destruct (assoc k (k_blobs (c_core c))) eqn:E; [|now apply IH].
+  eapply GT_then; [exact HI|apply (GT_drop k); exact HI|]. intros HI'.
+  apply (IH (c_delete c k b)). exact HI'.
+Qed.
+
+Lemma plain_GT bk kc o kc' r : plain_step bk kc o = Some (kc', r) -> CellInv kc -> GT kc kc'.
+Proof.
+  intros H HI. unfold plain_step in H.
+  destruct o; plain_crush;
+    try (now apply GT_refl);
+    try (apply GT_upd; [exact HI|reflexivity]);
+    try (now apply GT_set_off);
+    try (eapply GT_write; eauto; fail).
+  (* HWrite: the write, then the private offset *)
+  eapply GT_then; [exact HI|eapply GT_write; eauto|]. intros HI'. now apply GT_set_off.
+Qed.
+
+Lemma GT_open_write_at kc b off data : CellInv kc -> GT kc (open_write_at kc b off data).
+Proof.
+  intros HI. unfold open_write_at. destruct (cell_of kc (b_cell b)) eqn:E; [|now apply GT_refl].
+  destruct data; [now apply GT_refl|]. eapply GT_write; eauto.
+Qed.
+
+Lemma create_GT bk fx c k sz data : CellInv (c_core c) -> GT (c_core c) (c_core (fst (c_create bk fx c k sz data))).
+Proof.
+  intros HI. unfold c_create.
+  destruct (negb (create_supported bk data)); [now apply GT_refl|].
+  destruct (assoc k (k_blobs (c_core c))) eqn:Ek; [now apply GT_refl|].
+  pose proof (c_evict_GT fx sz (c_queue c) (c_core c) (c_size c) HI) as HG.
+  pose proof (c_evict_sub fx sz (c_queue c) (c_core c) (c_size c)) as Hs.
+  destruct (c_evict fx (c_queue c) (c_core c) (c_size c) sz) as [[[kc1 size1] q1] ok]. cbn [fst snd] in *.
+  destruct ok; [|exact HG].
+  assert (Ek1 : assoc k (k_blobs kc1) = None).
+  { destruct (assoc k (k_blobs kc1)) eqn:E; auto. apply Hs in E. congruence. }
+  destruct data as [d|]; cbn [fst c_core].
+  - eapply GT_then; [exact HI|exact HG|]. intros HI1. now apply GT_add.
+  - eapply GT_then; [exact HI|exact HG|]. intros HI1.
+    apply (GT_then kc1 (add_blob k sz [] kc1)); [exact HI1|now apply GT_add|]. intros HI2.
+    apply GT_add_handle; auto. rewrite add_blob_next. lia.
+Qed.
+
+Theorem cstep_GT bk fx c o : CellInv (c_core c) -> GT (c_core c) (c_core (fst (cstep bk fx c o))).
+Proof.
+  intros HI. unfold cstep.
+  destruct (plain_step bk (c_core c) o) as [[kc1 r]|] eqn:P.
+  { cbn [fst c_core]. eapply plain_GT; eauto. }
+  destruct o; cbn in P; try discriminate P; try (destruct bk; discriminate P); clear P.
+  - now apply create_GT.
+  - now apply create_GT.
+  - destruct bk; [now apply GT_refl|].
+    destruct (lookup (c_core c) k sc) as [b|e] eqn:L; [|now apply GT_refl]. cbn [fst c_core].
+    apply lookup_inl in L. destruct L as [Hb _]. apply GT_add_handle; auto. eapply ci_fresh; eauto.
+  - destruct (lookup (c_core c) k sc); now apply GT_refl.
+  - destruct (lookup (c_core c) k sc); [|now apply GT_refl]. cbn [fst c_core]. now apply GT_open_write_at.
+  - destruct (assoc k (k_blobs (c_core c))); [|now apply GT_refl].
+    destruct (b_complete b); [now apply GT_refl|]. cbn [fst c_core]. apply GT_upd; auto.
+  - destruct (lookup (c_core c) k sc); [|now apply GT_refl]. cbn [fst c_core c_delete]. now apply GT_drop.
+  - destruct (lookup (c_core c) k sc); [|now apply GT_refl].
+    destruct (b_banned b); [now apply GT_refl|]. cbn [fst c_core]. apply GT_upd; auto.
+  - destruct (lookup (c_core c) k sc); [|now apply GT_refl].
+    destruct (negb (b_banned b)); [now apply GT_refl|]. cbn [fst c_core]. apply GT_upd; auto.
+  - destruct bk; [|now apply GT_refl].
+    destruct ((pct <? 0) || (100 <=? pct))%Z; [now apply GT_refl|].
+    pose proof (c_evict_GT fx (k_cap (c_core c) - clean_target (k_cap (c_core c)) pct) (c_queue c) (c_core c) (c_size c) HI) as HG.
+    destruct (c_evict fx (c_queue c) (c_core c) (c_size c) (k_cap (c_core c) - clean_target (k_cap (c_core c)) pct)) as [[[kc1 size1] q1] ok].
+    cbn [fst snd] in *. destruct ok; [exact HG|].
+    destruct (order_legal kc1 order); [|now apply GT_refl]. cbn [fst].
+    eapply GT_then; [exact HI|exact HG|]. intros HI1.
+    apply (c_clean_loop_GT _ _ (mkc kc1 size1 q1)). exact HI1.
+Qed.
+
+Lemma crun_GT bk fx : forall ops c, CellInv (c_core c) -> GT (c_core c) (c_core (fst (crun bk fx c ops))).
+Proof.
+  induction ops as [|o t IH]; intros c HI; cbn [crun]; [now apply GT_refl|].
+  pose proof (cstep_GT bk fx c o HI) as H1. destruct (cstep bk fx c o) as [c1 r]. cbn [fst] in H1.
+  pose proof (IH c1 (gt_inv _ _ H1)) as H2. destruct (crun bk fx c1 t) as [c2 rs]. cbn [fst] in *.
+  eapply GT_trans; eauto.
+Qed.
+
+Lemma crun_CellInv bk fx cap ops : CellInv (c_core (fst (crun bk fx (cinit cap) ops))).
+Proof. apply (gt_inv _ _ (crun_GT bk fx ops (cinit cap) (ci_init cap))). Qed.
